@@ -16,7 +16,7 @@ func init() {
 	vtModels["pair"] = func(cfg json.RawMessage) vtModel { return &pairModel{pairWorld: newPairWorld(cfg)} }
 }
 
-// pairModel: alphabet {tick A, tick B, deliver/drop/dup any in-flight datagram, restart A/B}.
+// pairModel: alphabet {tick A, tick B, deliver/drop/dup any in-flight datagram, restart A/B, offer, answer}.
 type pairModel struct {
 	*pairWorld
 	lastDefault string
@@ -32,7 +32,7 @@ func (m *pairModel) settled() bool {
 		}
 	}
 
-	return m.side[0].gen == m.side[1].gen
+	return m.exch == 0 && m.side[0].gen == m.side[1].gen
 }
 
 func (m *pairModel) all() []string {
@@ -40,10 +40,15 @@ func (m *pairModel) all() []string {
 		return nil // both selected and nothing in flight: the rest is keepalive traffic (C04)
 	}
 	evs := append(m.tickEvents(), m.netEvents()...)
-	for i, s := range m.side {
-		if s.restarts < m.cfg.Restarts && s.gen <= m.side[1-i].gen {
-			evs = append(evs, fmt.Sprintf("restart:%d", i))
+	switch m.exch {
+	case 0:
+		if m.exchanges < m.cfg.Restarts {
+			evs = append(evs, "restart:0", "restart:1")
 		}
+	case 1:
+		evs = append(evs, "offer")
+	case 2:
+		evs = append(evs, "answer")
 	}
 
 	return evs
@@ -54,6 +59,12 @@ func (m *pairModel) all() []string {
 func (m *pairModel) defaultEvent() string {
 	if m.settled() {
 		return ""
+	}
+	switch m.exch { // signalling proceeds by default; letting other events overtake it is a deviation
+	case 1:
+		return "offer"
+	case 2:
+		return "answer"
 	}
 	if len(m.inflight) > 0 {
 		return fmt.Sprintf("deliver:%d", m.inflight[0].seq)
@@ -105,20 +116,33 @@ func (m *pairModel) Apply(ev string) {
 		return
 	}
 	kind, arg, _ := strings.Cut(ev, ":")
-	if kind == "restart" {
+	switch kind {
+	case "restart":
 		m.restart(int(arg[0] - '0'))
+
+		return
+	case "offer":
+		m.offerArrives()
+
+		return
+	case "answer":
+		m.answerArrives()
 
 		return
 	}
 	panic("unknown event " + ev)
 }
 
-// restart: ICE restart of one side followed by re-signalling (credentials + candidates both ways).
-func (pw *pairWorld) restart(i int) {
-	s, peer := pw.side[i], pw.side[1-i]
-	s.restarts++
+// An ICE restart is an offer/answer exchange (RFC 8445 section 9: the agent that receives a restart must restart
+// too, and each side learns the other's new credentials and candidates only from the offer resp. the answer):
+//   restart:i  the initiator restarts and gathers (new credentials, fresh sockets); its offer is under way
+//   offer      the offer arrives: the responder restarts as well, applies the initiator's credentials and
+//              candidates; its answer is under way
+//   answer     the answer arrives: the initiator applies the responder's credentials and candidates
+// Old-generation datagrams stay in flight and any other event may come in between.
+func (pw *pairWorld) restartSide(s *sideState) {
 	s.gen++
-	pw.ledgers[i].reset()
+	pw.ledgers[s.idx].reset()
 	s.ufrag = fmt.Sprintf("%sg%d", s.ufrag[:9], s.gen)
 	s.pwd = fmt.Sprintf("%sg%d", s.pwd[:28-4], s.gen)
 	if err := s.agent.Restart(s.ufrag, s.pwd); err != nil {
@@ -126,28 +150,43 @@ func (pw *pairWorld) restart(i int) {
 
 		return
 	}
-	var kinds []string
-	var prios []uint32
-	if i == 0 {
-		kinds, prios = pw.cfg.KindsA, pw.cfg.PrioA
-	} else {
+	kinds, prios := pw.cfg.KindsA, pw.cfg.PrioA
+	if s.idx == 1 {
 		kinds, prios = pw.cfg.KindsB, pw.cfg.PrioB
 	}
 	pw.addLocals(s, kinds, prios)
-	if err := s.agent.SetRemoteCredentials(peer.ufrag, peer.pwd); err != nil {
-		pw.problem("", "SetRemoteCredentials: %v", err)
-	}
+}
+
+func (pw *pairWorld) restart(i int) {
+	pw.side[i].restarts++
+	pw.exchanges++
+	pw.exch, pw.exchInit = 1, i
+	pw.restartSide(pw.side[i])
+}
+
+func (pw *pairWorld) offerArrives() {
+	s, peer := pw.side[pw.exchInit], pw.side[1-pw.exchInit]
+	pw.restartSide(peer)
 	if err := peer.agent.SetRemoteCredentials(s.ufrag, s.pwd); err != nil {
-		pw.problem("", "SetRemoteCredentials(peer): %v", err)
+		pw.problem("", "SetRemoteCredentials(responder): %v", err)
+	}
+	pw.signalAll(s, peer)
+	pw.exch = 2
+}
+
+func (pw *pairWorld) answerArrives() {
+	s, peer := pw.side[pw.exchInit], pw.side[1-pw.exchInit]
+	if err := s.agent.SetRemoteCredentials(peer.ufrag, peer.pwd); err != nil {
+		pw.problem("", "SetRemoteCredentials(initiator): %v", err)
 	}
 	pw.signalAll(peer, s)
-	pw.signalAll(s, peer)
+	pw.exch = 0
 }
 
 func (m *pairModel) Key() (string, []int) {
-	spent := []int{m.side[0].ticks, m.side[1].ticks, m.drops, m.dups, m.devs, m.side[0].restarts, m.side[1].restarts}
+	spent := []int{m.side[0].ticks, m.side[1].ticks, m.drops, m.dups, m.devs, m.exchanges}
 
-	k := m.canon() + fmt.Sprintf(" gen=%d/%d", m.side[0].gen, m.side[1].gen)
+	k := m.canon() + fmt.Sprintf(" gen=%d/%d exch=%d/%d", m.side[0].gen, m.side[1].gen, m.exch, m.exchInit*m.exch)
 	if m.cfg.Monitor {
 		k += " ledger=" + m.ledgers[0].summary() + "/" + m.ledgers[1].summary()
 	}
@@ -194,8 +233,8 @@ func (m *pairModel) Problems() []vtProblem {
 
 // Finish: the fair loss-free suffix, then the convergence oracle.
 func (m *pairModel) Finish() []vtProblem {
-	if m.side[0].gen != m.side[1].gen {
-		return nil // a half-done restart is not a session the statement speaks about
+	if m.exch != 0 || m.side[0].gen != m.side[1].gen {
+		return nil // a half-done restart exchange is not a session the statement speaks about
 	}
 	rounds := m.cfg.FairMax
 	if rounds == 0 {
@@ -280,14 +319,19 @@ func checkC01(c *runCtx) {
 		sp{"3x3 reachable, D<=1", pairCfg{KindsA: []string{"host", "host", "host"}, KindsB: []string{"host", "host", "host"}, Ticks: 3, Drops: 1, Dups: 1, Dev: 1}},
 		sp{"4x4 reachable, D<=1", pairCfg{KindsA: []string{"host", "host", "host", "host"}, KindsB: []string{"host", "host", "host", "host"}, Ticks: 3, Drops: 1, Dups: 1, Dev: 1}},
 	)
+	// restarted sessions: one offer/answer restart exchange started at any step by either side
+	specs = append(specs,
+		sp{"1x1 restart exchange at any step, D<=2", pairCfg{KindsA: host1, KindsB: host1, Ticks: 4, Drops: 1, Dups: 1, Dev: 2, Restarts: 1}},
+	)
 	if !c.quick() {
 		specs = append(specs,
 			sp{"1x1 reachable, full BFS, 3 ticks 2 drops", pairCfg{KindsA: host1, KindsB: host1, Ticks: 3, Drops: 2, Dups: 1}},
 			sp{"2x1 reachable, full BFS", pairCfg{KindsA: host2, KindsB: host1, Ticks: 2, Drops: 1, Dups: 0}},
 			sp{"2x2 reachable, D<=3", pairCfg{KindsA: host2, KindsB: host2, Ticks: 3, Drops: 3, Dups: 3, Dev: 3}},
 			sp{"3x3 reachable, D<=2", pairCfg{KindsA: []string{"host", "host", "host"}, KindsB: []string{"host", "host", "host"}, Ticks: 3, Drops: 2, Dups: 2, Dev: 2}},
-			sp{"1x1 restart both sides, D<=2", pairCfg{KindsA: host1, KindsB: host1, Ticks: 4, Drops: 2, Dups: 2, Dev: 2, Restarts: 1}},
-			sp{"2x1 restart both sides, D<=1", pairCfg{KindsA: host2, KindsB: host1, Ticks: 4, Drops: 1, Dups: 1, Dev: 1, Restarts: 1}},
+			sp{"1x1 restart exchange at any step, D<=3", pairCfg{KindsA: host1, KindsB: host1, Ticks: 4, Drops: 2, Dups: 2, Dev: 3, Restarts: 1}},
+			sp{"2x1 restart exchange at any step, D<=2", pairCfg{KindsA: host2, KindsB: host1, Ticks: 4, Drops: 1, Dups: 1, Dev: 2, Restarts: 1}},
+			sp{"1x1 two restart exchanges, D<=3", pairCfg{KindsA: host1, KindsB: host1, Ticks: 4, Drops: 1, Dups: 1, Dev: 3, Restarts: 2}},
 		)
 		// every 2x1 reachability matrix (16), D<=2
 		links := []string{"a0>b0", "b0>a0", "a1>b0", "b0>a1"}
